@@ -354,13 +354,14 @@ class Decisions:
 
 class World:
     def __init__(self, seed, faults=None, overrides=None, start=1000.0, step_cap=2_000_000, jitter_mode=None,
-                 listener_reverse=False, keep_log=True):
+                 listener_reverse=False, keep_log=True, timer_slop=0.0):
         global _WORLD
         install_seams()
         zc_incoming._seen_logs.clear()
         self.seed = seed
         self.dec = Decisions(seed, overrides)
         self.loop = SimLoop(start, step_cap)
+        self.loop.timer_slop = timer_slop
         self.t0 = start
         self.hosts = {}
         self.peers = {}
